@@ -134,7 +134,25 @@ fn issuance<C: Cs>(ctx: &Ctx, st: &Setup<C>, own: Option<&CL03CommitmentPublicKe
     c3.value = Integer::from(&c3.value + 1u32);
     refuse("commitment-value+1", &run.zk, &c3, &u, true);
     // other hidden sets
-    for u2 in subsets_nonempty(n) {
+    let others: Vec<Vec<usize>> = if n <= 5 {
+        subsets_nonempty(n)
+    } else {
+        // large attribute counts: neighbours of the hidden set instead of all 2^n subsets
+        let mut v: Vec<Vec<usize>> = vec![vec![0], vec![n - 1]];
+        for k in 0..u.len() {
+            for delta in [1usize, 64] {
+                let mut x = u.clone();
+                x[k] = (x[k] + delta) % n;
+                x.sort();
+                x.dedup();
+                v.push(x);
+            }
+        }
+        v.push(u[..u.len() - 1].to_vec());
+        v.retain(|x| !x.is_empty());
+        v
+    };
+    for u2 in others {
         if u2 != u {
             refuse(&format!("other-hidden-set#{:?}", u2), &run.zk, &c, &u2, u2.len() == u.len());
         }
@@ -235,6 +253,15 @@ fn run<C: Cs>(ctx: &Ctx, idx: u64, nmax: usize, with_trusted: bool) {
     } else {
         None
     };
+    // a credential with many attributes and hidden positions deep in the vector (once per run)
+    if !with_trusted {
+        let big = 70;
+        if let Some(stb) = Setup::<C>::new(ctx, big) {
+            issuance::<C>(ctx, &stb, None, &mut r, big, vec![5, 64], false);
+            issuance::<C>(ctx, &stb, None, &mut r, 33, vec![32], false);
+            ctx.count("large_attribute_count_issuances", 2);
+        }
+    }
     for n in 1..=nmax {
         for (k, u) in subsets_nonempty(n).into_iter().enumerate() {
             // tamper every field of a few selected proofs
